@@ -176,7 +176,7 @@ fn check_chain(ctx: &Ctx, rt: &tokio::runtime::Runtime, fac: &versatiles_pipelin
 pub fn run(ctx: Arc<Ctx>) {
 	ctx.rule(
 		"filter_zoom: all 81 (min,max) over {absent,0,1,2,3,5,31,32,255}; filter_bbox: every valid box from the lon/lat alphabet of C15 (incl. points, slivers, antimeridian/pole touching) ; chains of 2 (all zoom x representative bbox, bbox x bbox; thorough: every 17th x every 17th box of the alphabet) and 3 filters; \
-		 sources: MemSource (full z0..4 + sparse z5 + both corners of z31), from_debug (generator, all coordinates), a real versatiles file; every coordinate z<=4 + sparse + corners probed by lookup, streams over whole levels. invalid arguments (reversed, out of range, 3/5 elements, nan, text, negative zoom) must be Err at build time. \
+		 sources: MemSource (full z0..4 + sparse z5 + both corners of z31), from_debug (generator, all coordinates), real versatiles / pmtiles / tar / mbtiles files written by the repository (a quarter of the chains each for versatiles and pmtiles, an eighth for tar and mbtiles); every coordinate z<=4 + sparse + corners probed by lookup, streams over whole levels. invalid arguments (reversed, out of range, 3/5 elements, nan, text, negative zoom) must be Err at build time. \
 		 oracle with a don't-care band of 1e-6 tile on geographic edges. non-trivial = chains that pass some but not all probe tiles",
 	);
 	let work = ct::WorkDir::new("c09");
@@ -213,7 +213,7 @@ pub fn run(ctx: Arc<Ctx>) {
 	for z in &zooms {
 		chains.push(vec![z.clone()]);
 	}
-	let stride = ctx.tier.pick(7usize, 1usize);
+	let stride = ctx.tier.pick(2usize, 1usize);
 	for (i, b) in bboxes.iter().enumerate() {
 		if i % stride == 0 {
 			chains.push(vec![b.clone()]);
@@ -233,7 +233,7 @@ pub fn run(ctx: Arc<Ctx>) {
 	}
 	for (i, a) in zooms.iter().enumerate() {
 		for (j, b) in zooms.iter().enumerate() {
-			if (i + j) % ctx.tier.pick(5, 1) == 0 {
+			if (i + j) % ctx.tier.pick(1, 1) == 0 {
 				chains.push(vec![a.clone(), b.clone()]);
 			}
 		}
@@ -317,7 +317,7 @@ pub fn run(ctx: Arc<Ctx>) {
 	ctx.sample(json!({"chain": chains[chains.len() / 2].iter().map(|f| f.vpl()).collect::<Vec<_>>(), "probe_coordinates": probes.len()}));
 	ctx.exhaustive(ctx.tier == Tier::Thorough);
 	if ctx.tier == Tier::Quick {
-		ctx.extra("quick_tier_note", json!("single filter_bbox over every 7th box of the lon/lat alphabet and every 5th zoom x zoom chain; thorough runs all"));
+		ctx.extra("quick_tier_note", json!("single filter_bbox over every 2nd box of the lon/lat alphabet; thorough runs all"));
 	}
 	drop(work);
 }
